@@ -75,6 +75,8 @@ type VC struct {
 	inputs    map[string]string
 	unsup     []string
 	topRets   []retRec
+	safetyOff bool
+	firedAnchors map[*Clause]bool
 }
 
 func (vc *VC) note(format string, a ...interface{}) {
@@ -144,6 +146,13 @@ func (vc *VC) oblige(st *State, kind, name, desc string, pos token.Position, goa
 	vc.nameCount[name]++
 	if n := vc.nameCount[name]; n > 1 {
 		name = fmt.Sprintf("%s#%d", name, n)
+	}
+	if vc.safetyOff && (kind == "nopanic" || kind == "requires") {
+		// functions under a `safety_off` contract are checked for their contract clauses only
+		if kind == "nopanic" && goal != "false" {
+			vc.assume(st, goal)
+		}
+		return
 	}
 	vc.obls = append(vc.obls, &Obligation{Name: name, Kind: kind, Desc: desc, Pos: pos, PC: st.pc, Goal: goal, Mark: vc.sc.mark(), Func: vc.root})
 	if kind == "nopanic" && goal != "false" {
@@ -284,6 +293,13 @@ func (vc *VC) mergeVals(pcs []string, vals []Val, name string) Val {
 		return vals[0]
 	}
 	t := vals[0].T
+	if vals[0].K == KGhost {
+		var ts []string
+		for _, v := range vals {
+			ts = append(ts, v.S)
+		}
+		return Val{K: KGhost, GSort: vals[0].GSort, S: vc.mergeTerms(pcs, ts, vals[0].GSort, "g."+name)}
+	}
 	var flats [][]string
 	for _, v := range vals {
 		f, ok := flatten(v)
@@ -333,7 +349,7 @@ func sameVal(a, b Val) bool {
 		return false
 	}
 	switch a.K {
-	case KScalar, KArray, KRef:
+	case KScalar, KArray, KRef, KGhost:
 		return a.S == b.S
 	case KSlice:
 		return a.Sl == b.Sl
